@@ -31,7 +31,7 @@ def check(res):
                      (dd.get("look_alikes"), dd.get("routes"), dd.get("first")), l)
             continue
         if name == "exception":
-            viol("before-main:exception", "a Lexicon used by the initializer of a namespace-scope object (before main) throws: " + l, l)
+            viol("before-main:exception", "a Lexicon used by the initializer (L0: before main) or the destructor (L9: after main) of a namespace-scope object throws: " + l, l)
             continue
         d = dict(x.split("=", 1) for x in w[2:] if "=" in x)
         # multi-word spellings ("signed char") contain spaces: re-parse spelled=
@@ -93,7 +93,7 @@ def check(res):
                       {"theorem_file": "Properties_C13.v", "error": coq_error_excerpt(out, "Properties_C13.v")}, no_input=True)
     res.coverage.update({
         "evaluations": nfacts + stt["n"], "distinct_nontrivial": len(lines) + stt.get("classes", 0),
-        "rule": "26 built-in accessors, 5 symbolic constants, 2 linkages on a Lexicon used BEFORE main() by the initializer of a namespace-scope object "
+        "rule": "26 built-in accessors, 5 symbolic constants, 2 linkages on a Lexicon used BEFORE main() by the initializer of a namespace-scope object and AFTER main() by its destructor "
                 "(translation unit linked before the library) and on three Lexicon instances in main() (two alive at once, one created after the first "
                 "was destroyed): spelling, expr(), type(), transfer(), category, pairwise distinctness, identity across instances, and every public "
                 "route from the spelling (get_identifier by view and by String -> get_as_type; get_linkage by view and by String; get_label; "
